@@ -67,6 +67,10 @@ Proof. exact ctu_refines_iec_top. Qed.
 Theorem ctd_refines_iec : forall lo hi tr, lo <= 0 -> pvs_in lo hi tr ->
   run (ctd_stepI lo) ctd_init tr = map (ctd_spec lo) (hists [] tr).
 Proof. exact ctd_refines_iec_top. Qed.
+(* CTUD with its edge-detecting inputs is the function the standard describes (reset over load, simultaneous edges cancel, saturation) *)
+Theorem ctud_refines_iec : forall lo hi tr cv pcu pcd,
+  run (ctud_stepI lo hi) {| ctud_cv := cv; ctud_pcu := pcu; ctud_pcd := pcd |} tr = ctud_spec_run lo hi cv pcu pcd tr.
+Proof. exact ctud_refines_iec_l. Qed.
 Theorem ctu_saturates : forall lo hi s cu r pv, lo <= 0 <= hi -> lo <= ctu_cv s <= hi ->
   lo <= ctu_cv (fst (ctu_step hi s cu r pv)) <= hi.
 Proof. exact ctu_in_range. Qed.
@@ -131,3 +135,4 @@ Print Assumptions ftrig_one_call_per_edge.
 Print Assumptions sr_truth_table.
 Print Assumptions rs_truth_table.
 Print Assumptions fb_instances_independent.
+Print Assumptions ctud_refines_iec.
